@@ -3,6 +3,7 @@ import RemocModel.Link.Relay
 import RemocModel.Props.C01
 import RemocModel.Base.CloseProv
 import RemocModel.Base.CloseList
+import RemocModel.Base.CloseQuiet
 set_option linter.unusedSimpArgs false
 
 /-!
@@ -228,5 +229,75 @@ example : (run cfg3 (init 1 0 0) qsRun).accepted.map (·.id) = [1, 2, 3] ∧
 example : (run cfg3 (init 1 0 0) qsRun.dropLast).impl = none ∧
     (run cfg3 (init 1 0 0) qsRun.dropLast).q.map (·.id) = [2, 3] ∧
     (step cfg3 (run cfg3 (init 1 0 0) qsRun.dropLast) .implBack).isSome = true := by decide
+
+/-! ## classification -/
+
+/-- **The reason a sender observes is the right one** (`Sender::closed_reason()`, identical for every
+clone of a link because clones share the two watches; `is_closed()` = `isSome`).
+
+Remote clones: `Closed` only if the receiver called `close()`; `Dropped` only if the receiver was
+dropped; `Failed` only if the connection failed, or the forwarding of the receiver failed, or the
+transmission of some value failed (because that value cannot be sent, or the connection / the
+receiving task was gone).  Local clones read the receiver's own watch: `Closed` iff `close()` was
+called, `Dropped` iff the receiver was dropped without `close()`, never `Failed`. -/
+theorem mpsc_close_classified (c : Cfg) (s : State) (h : Reachable c s) :
+    (s.reason = some .closed → s.closeCalled = true) ∧
+    (s.reason = some .dropped → s.rAlive = false) ∧
+    (s.reason = some .failed → s.connDown = true ∨ s.fwdErr = true ∨
+      ∃ p ∈ s.hres, p.2 = HRes.sendErr ∧ (p.1.bad ≠ .no ∨ s.connDown = true ∨ s.rimpl.isSome)) ∧
+    (s.lreason = some .closed ↔ s.closeCalled = true) ∧
+    (s.lreason = some .dropped ↔ (s.rAlive = false ∧ s.closeCalled = false)) ∧
+    s.lreason ≠ some .failed := by
+  have a := allinv_reachable c s h
+  have hr := reason_eq s a.w
+  have hw := a.w.closedW
+  have hl : s.lreason = s.rW := by unfold State.lreason closedReasonOf; cases s.rW <;> rfl
+  refine ⟨?_, ?_, ?_, ?_, ?_, ?_⟩
+  · intro hc
+    rw [hr, hw] at hc
+    apply a.ci.iClose
+    cases hi : s.impl with
+    | none => cases hf : s.failFlag <;> simp [hi, hf, expW] at hc
+    | some x => cases x <;> cases hf : s.failFlag <;> simp_all [expW]
+  · intro hc
+    rw [hr, hw] at hc
+    apply a.ci.iFin
+    cases hi : s.impl with
+    | none => cases hf : s.failFlag <;> simp [hi, hf, expW] at hc
+    | some x => cases x <;> cases hf : s.failFlag <;> simp_all [expW]
+  · intro hc
+    rw [hr, hw] at hc
+    by_cases hf : s.failFlag = true
+    · right; right
+      obtain ⟨p, hp, hp2⟩ := List.mem_map.mp (a.f.ff.mp hf)
+      exact ⟨p, hp, hp2, a.f.why p hp hp2⟩
+    · have hf' : s.failFlag = false := by simpa using hf
+      cases hi : s.impl with
+      | none => simp [hi, hf', expW] at hc
+      | some x =>
+        cases x with
+        | close => simp [hi, expW] at hc
+        | fin => simp [hi, expW] at hc
+        | error => exact Or.inr (Or.inl (a.ci.iError hi))
+        | conn => exact Or.inl (a.ci.iConn hi)
+        | drained => simp [hi, hf', expW] at hc
+  · rw [hl]; exact ⟨a.p.wClosed, fun hc => a.p.flag (a.p.called hc)⟩
+  · rw [hl]
+    constructor
+    · intro hd
+      refine ⟨a.p.wDropped hd, ?_⟩
+      cases hcc : s.closeCalled with
+      | false => rfl
+      | true => have := a.p.flag (a.p.called hcc); simp [hd] at this
+    · intro ⟨ha, hcc⟩
+      have hs := a.k.dead ha
+      cases hw : s.rW with
+      | none => simp [hw] at hs
+      | some r =>
+        cases r with
+        | closed => have := a.p.wClosed hw; simp [hcc] at this
+        | dropped => rfl
+        | failed => exact absurd hw a.p.wFailed
+  · rw [hl]; exact a.p.wFailed
 
 end Remoc.Close
